@@ -23,6 +23,8 @@
 //!   lost> and the next case runs on a fresh connection; after 3 such cases the rest of the input is SKIPPED
 //!        -> one result per client op (comma separated):  M<canon>~<fd labels> | T | K | E<variant>
 //!           fd label = <msg index>.<position> found by fstat (dev, ino); ? when unknown
+//!   giant <spec>|<spec>... <cuts> <chunk> <ops>   frames of up to MAX_MESSAGE_LEN bytes built here from short
+//!        descriptors, written by a peer thread, received with Infinite calls (see fn giant)
 //!   kprobe <hex:nfds;hex:nfds...> <req.req...>    raw socketpair: write the segments, then one
 //!        nonblocking recvmsg per request size -> <bytes>:<nfds> or A (EAGAIN), comma separated
 use nix::sys::socket::{recvmsg, sendmsg, ControlMessage, ControlMessageOwned, MsgFlags};
@@ -44,6 +46,11 @@ fn opt(s: &Option<String>) -> String {
 }
 
 pub fn canon(msg: &MarshalledMessage, serial: Option<NonZeroU32>) -> String {
+    format!("{};{}", canon_head(msg, serial), hex(msg.get_buf()))
+}
+
+/// every decoded header field (all of `canon` but the body bytes)
+pub fn canon_head(msg: &MarshalledMessage, serial: Option<NonZeroU32>) -> String {
     let d = &msg.dynheader;
     let typ = match msg.typ {
         MessageType::Call => "c",
@@ -65,7 +72,7 @@ pub fn canon(msg: &MarshalledMessage, serial: Option<NonZeroU32>) -> String {
         d.num_fds.unwrap_or(0) as usize
     };
     format!(
-        "{};{};{};{};{};{};{};{};{};{};{};{};{};{}",
+        "{};{};{};{};{};{};{};{};{};{};{};{};{}",
         typ,
         msg.flags,
         ser,
@@ -78,8 +85,7 @@ pub fn canon(msg: &MarshalledMessage, serial: Option<NonZeroU32>) -> String {
         hex(msg.get_sig().as_bytes()),
         opt(&d.error_name),
         d.response_serial.map(|s| s.get()).unwrap_or(0),
-        nf,
-        hex(msg.get_buf())
+        nf
     )
 }
 
@@ -99,15 +105,25 @@ fn build_one(spec: &str) -> String {
     let nfds: usize = p[3].parse().unwrap();
     let serial = NonZeroU32::new(p[4].parse().unwrap()).unwrap();
     let tag = p[5];
+    // a further field p<len>: the object path (calls, signals) is padded to <len> characters, so that the array of
+    // header fields itself is as long as wanted (64 KiB and more: a length that does not fit 16 bits)
+    let plen: usize = p.iter().skip(6).find(|x| x.starts_with('p')).map(|x| x[1..].parse().unwrap()).unwrap_or(0);
+    let pad_path = |base: String| -> String {
+        let mut o = base;
+        while o.len() < plen {
+            o.push_str(if o.len() % 9 == 0 && o.len() + 1 < plen { "/" } else { "k" });
+        }
+        o
+    };
     let mut msg = match p[0] {
         "c" => MessageBuilder::with_byteorder(bo)
             .call(format!("M{}", tag))
-            .on(format!("/o/p{}", tag))
+            .on(pad_path(format!("/o/p{}", tag)))
             .with_interface(format!("i.f{}", tag))
             .at("d.e.st")
             .build(),
         "s" => MessageBuilder::with_byteorder(bo)
-            .signal(format!("s.i{}", tag), format!("S{}", tag), format!("/s/{}", tag))
+            .signal(format!("s.i{}", tag), format!("S{}", tag), pad_path(format!("/s/{}", tag)))
             .build(),
         "r" => MarshalledMessage {
             typ: MessageType::Reply,
@@ -131,7 +147,7 @@ fn build_one(spec: &str) -> String {
             body: MarshalledMessageBody::with_byteorder(bo),
         },
     };
-    let unreferenced = p.get(6).copied() == Some("u");
+    let unreferenced = p.iter().skip(6).any(|x| *x == "u");
     if !unreferenced {
         for _ in 0..nfds {
             // the descriptor used to build the frame is irrelevant (the peer attaches its own); only the
@@ -322,6 +338,189 @@ fn run(stream: &[u8], nfds: &[usize], events: &str) -> String {
     }
 }
 
+/// frame of a message without descriptors whose body is a sequence of byte arrays: spec = typ,bo,len.len...,serial,tag
+/// (len = a number, or F<k>: the last array is as long as it takes to make the frame MAX_MESSAGE_LEN - k bytes).
+/// The payload is generated here from the lengths and the serial; returns (frame, length of the body, canon_head)
+fn giant_frame(spec: &str) -> (Vec<u8>, usize, String) {
+    let p: Vec<&str> = spec.split(',').collect();
+    let serial: u32 = p[3].parse().unwrap();
+    let lens: Vec<&str> = if p[2] == "-" { vec![] } else { p[2].split('.').collect() };
+    let build = |fill: usize| -> (Vec<u8>, usize, String) {
+        // the message itself (header fields as in build_one, no descriptors, no byte array yet)
+        let bo = if p[1] == "B" { ByteOrder::BigEndian } else { ByteOrder::LittleEndian };
+        let tag = p[4];
+        let mut msg = match p[0] {
+            "c" => MessageBuilder::with_byteorder(bo)
+                .call(format!("M{}", tag))
+                .on(format!("/o/p{}", tag))
+                .with_interface(format!("i.f{}", tag))
+                .at("d.e.st")
+                .build(),
+            _ => MessageBuilder::with_byteorder(bo)
+                .signal(format!("s.i{}", tag), format!("S{}", tag), format!("/s/{}", tag))
+                .build(),
+        };
+        for (k, l) in lens.iter().enumerate() {
+            let n: usize = if l.starts_with('F') { fill } else { l.parse().unwrap() };
+            let mut v = vec![0u8; n];
+            let mut x: u64 = 0x9e3779b97f4a7c15u64 ^ ((serial as u64) << 8) ^ k as u64;
+            for c in v.chunks_mut(8) {
+                x ^= x << 13;
+                x ^= x >> 7;
+                x ^= x << 17;
+                let b = x.to_le_bytes();
+                let m = c.len();
+                c.copy_from_slice(&b[..m]);
+            }
+            msg.body.push_param(&v[..]).unwrap();
+        }
+        let mut buf = Vec::new();
+        rustbus::wire::marshal::marshal(&msg, NonZeroU32::new(serial).unwrap(), &mut buf).unwrap();
+        let bl = msg.get_buf().len();
+        buf.extend_from_slice(msg.get_buf());
+        (buf, bl, canon_head(&msg, NonZeroU32::new(serial)))
+    };
+    match lens.iter().find(|l| l.starts_with('F')) {
+        None => build(0),
+        Some(f) => {
+            let k: usize = f[1..].parse().unwrap();
+            // a byte array ends the body: every byte added to it adds one byte to the frame
+            let probe = build(0).0.len();
+            build(rustbus::wire::MAX_MESSAGE_LEN - k - probe)
+        }
+    }
+}
+
+/// giant <spec>|<spec>... <cuts> <chunk> <ops>: frames of up to MAX_MESSAGE_LEN bytes, built here from short
+/// descriptors.  A peer THREAD writes the whole stream with blocking writes: cut at the given positions
+/// (<i>s<k> = k bytes after the start of frame i, <i>e<k> = k bytes before its end; joined by '.', or '-') and
+/// otherwise in pieces of <chunk> bytes.  The client makes the calls of <ops> (i = get_next_message(Infinite),
+/// j = read_once(Infinite), then, after the peer thread has finished, g = get_next_message(Nonblock)).
+///   -> sent=<canon_head>;<body length>|...  got=<token>,...   token = M<canon_head>;<body length>;<eq|ne> (body
+///      bytes compared here with the body of the sent message of the same serial) | K | T | E<variant>; the calls
+///      stop at the first error
+fn giant(specs: &str, cuts: &str, chunk: usize, ops: &str) -> String {
+    let frames: Vec<(Vec<u8>, usize, String)> = specs.split('|').map(giant_frame).collect();
+    let (conn, mut peer) = match std::panic::catch_unwind(|| rbverif::conn::connect_pair(true)) {
+        Ok(x) => x,
+        Err(_) => return "SETUPFAIL connect_to_bus / auth handshake".to_string(),
+    };
+    let mut recv = conn.recv;
+    let _send = conn.send;
+    let mut starts = Vec::new();
+    let mut total = 0usize;
+    for f in &frames {
+        starts.push(total);
+        total += f.0.len();
+    }
+    let mut pts: Vec<usize> = Vec::new();
+    if cuts != "-" {
+        for c in cuts.split('.') {
+            let (i, k, from_end) = match c.split_once('s') {
+                Some((i, k)) => (i.parse::<usize>().unwrap(), k.parse::<usize>().unwrap(), false),
+                None => {
+                    let (i, k) = c.split_once('e').unwrap();
+                    (i.parse::<usize>().unwrap(), k.parse::<usize>().unwrap(), true)
+                }
+            };
+            let n = frames[i].0.len();
+            if k <= n {
+                pts.push(if from_end { starts[i] + n - k } else { starts[i] + k });
+            }
+        }
+    }
+    let mut p = 0;
+    while p < total {
+        pts.push(p);
+        p += chunk.max(1);
+    }
+    pts.push(total);
+    pts.sort_unstable();
+    pts.dedup();
+    let sent: Vec<String> = frames.iter().map(|f| format!("{};{}", f.2, f.1)).collect();
+    let stream: std::sync::Arc<Vec<Vec<u8>>> = std::sync::Arc::new(frames.into_iter().map(|f| f.0).collect());
+    let bodies: Vec<(u32, usize, usize)> = sent
+        .iter()
+        .enumerate()
+        .map(|(i, s)| {
+            let f: Vec<&str> = s.split(';').collect();
+            (f[2].parse().unwrap(), i, f[13].parse().unwrap())
+        })
+        .collect();
+    let st2 = stream.clone();
+    let writer = std::thread::spawn(move || {
+        use std::io::Write;
+        let flat_at = |a: usize, b: usize, peer: &mut UnixStream| -> std::io::Result<()> {
+            // bytes a..b of the concatenation of the frames
+            let mut off = 0;
+            for f in st2.iter() {
+                let lo = a.max(off);
+                let hi = b.min(off + f.len());
+                if lo < hi {
+                    peer.write_all(&f[lo - off..hi - off])?;
+                }
+                off += f.len();
+            }
+            Ok(())
+        };
+        for w in pts.windows(2) {
+            // a piece never spans two frames unless no cut was asked for at the boundary: one write per frame part
+            if flat_at(w[0], w[1], &mut peer).is_err() {
+                break;
+            }
+        }
+        peer
+    });
+    let mut writer = Some(writer);
+    let mut keep_peer = None;
+    let mut out: Vec<String> = Vec::new();
+    for op in ops.split(',') {
+        let res = match op {
+            "i" => recv.get_next_message(Timeout::Infinite).map(Some),
+            "j" => recv.read_once(Timeout::Infinite).map(|_| None),
+            _ => {
+                // everything has been written before this call is made
+                if let Some(w) = writer.take() {
+                    keep_peer = w.join().ok();
+                }
+                recv.get_next_message(Timeout::Nonblock).map(Some)
+            }
+        };
+        match res {
+            Ok(None) => out.push("K".to_string()),
+            Ok(Some(msg)) => {
+                let ser = msg.dynheader.serial.map(|s| s.get()).unwrap_or(0);
+                let eq = match bodies.iter().find(|b| b.0 == ser) {
+                    Some(&(_, i, bl)) => {
+                        let f = &stream[i];
+                        if msg.get_buf() == &f[f.len() - bl..] {
+                            "eq"
+                        } else {
+                            "ne"
+                        }
+                    }
+                    None => "ne",
+                };
+                out.push(format!("M{};{};{}", canon_head(&msg, None), msg.get_buf().len(), eq));
+            }
+            Err(e) => {
+                out.push(err_name(&e));
+                if !matches!(e, rustbus::connection::Error::TimedOut) {
+                    break;
+                }
+            }
+        }
+    }
+    // closing the client's end makes a writer that is still at work fail and finish
+    drop(recv);
+    drop(_send);
+    if let Some(w) = writer.take() {
+        let _ = w.join();
+    }
+    drop(keep_peer);
+    format!("sent={} got={}", sent.join("|"), if out.is_empty() { "-".to_string() } else { out.join(",") })
+}
+
 fn kprobe(segs: &str, reqs: &str) -> String {
     let (a, b) = UnixStream::pair().unwrap();
     b.set_nonblocking(true).unwrap();
@@ -394,6 +593,20 @@ fn main() {
                         hangs += 1;
                         "HANG".to_string()
                     }
+                }
+            }
+            "giant" => {
+                let (a, b, c, d) = (parts[1].to_string(), parts[2].to_string(), parts[3].parse::<usize>().unwrap(), parts[4].to_string());
+                let (tx, rx) = std::sync::mpsc::channel();
+                std::thread::spawn(move || {
+                    let r = std::panic::catch_unwind(|| giant(&a, &b, c, &d));
+                    let _ = tx.send(r.unwrap_or_else(|_| "PANIC in the receive path".to_string()));
+                });
+                // a hang detector only: 128 MiB through a socket take well under a second
+                let ms: u64 = std::env::var("C09_GIANT_MS").ok().and_then(|v| v.parse().ok()).unwrap_or(240000);
+                match rx.recv_timeout(std::time::Duration::from_millis(ms)) {
+                    Ok(r) => r,
+                    Err(_) => "HANG".to_string(),
                 }
             }
             "kprobe" => kprobe(parts[1], parts[2]),
